@@ -94,14 +94,16 @@ def is_generic(cfg):
 
 
 def lat_equiv_pairs(rots):
-    """pairs of axes exchanged up to sign by some rotation (definition; used to name the failing class)."""
+    """pairs of axes phonopy's get_lattice_vector_equivalence([r.T ...]) calls equivalent (a row of R
+    is a signed unit vector of another axis; LatEquiv of MeshGrid.tla).  Only used to NAME the class
+    of a failing input."""
     pairs = set()
     for R in rots:
         R = np.array(R)
         for i in range(3):
-            col = np.abs(R[:, i])
+            row = np.abs(R[i, :])
             for j in range(3):
-                if j != i and col[j] == 1 and col.sum() == 1:
+                if j != i and row[j] == 1 and row.sum() == 1:
                     pairs.add((min(i, j), max(i, j)))
     return pairs
 
@@ -173,7 +175,7 @@ def model_configs(ctx, world, api_crystals):
                     cfgs.append(dict(level="grid", len=False, mesh=list(m), sn=list(sn), sd=sd, gamma=gamma,
                                      tr=tr, sym=sym, grp=c, _crystal=c))
     rng.shuffle(cfgs)
-    cfgs = cfgs[: (400 if quick else 3000)]
+    cfgs = cfgs[: (400 if quick else 2200)]
     # subgroups (the low-order ones are where R s = s mod 2 can fail)
     sub = []
     for c in crystals:
@@ -188,7 +190,7 @@ def model_configs(ctx, world, api_crystals):
                                         grp=group_name(c, k), _crystal=c))
     if not quick:
         rng.shuffle(sub)
-        sub = sub[:1500]
+        sub = sub[:1000]
     cfgs += sub
     # Phonopy.init_mesh level, explicit meshes and lengths
     api = []
@@ -214,7 +216,7 @@ def model_configs(ctx, world, api_crystals):
 
 def mc_module(name, extends, world, body):
     return ("---- MODULE %s ----\nEXTENDS %s\nMCGroupTable == %s\n%s\n"
-            "ASSUME TableOKAssumption == \\A g \\in DOMAIN MCGroupTable : IsGroup(MCGroupTable[g])\n====\n"
+            "ASSUME TableIsOK == \\A g \\in DOMAIN MCGroupTable : IsGroup(MCGroupTable[g])\n====\n"
             % (name, extends, world.table_tla(), body))
 
 
@@ -334,8 +336,8 @@ def replay_model(ctx, world, apiw, cfgs, states):
 def grid_events(ctx, world):
     rng = ctx.rng
     quick = ctx.quick
-    n_rand = 300 if quick else 2000
-    maxm = 4 if quick else 6
+    n_rand = 300 if quick else 1400
+    maxm = 4 if quick else 5
     events = []
     cfgs = []
     names = world.names
@@ -361,7 +363,7 @@ def grid_events(ctx, world):
                 m[1] = m[0]
             if rng.random() < 0.3:
                 m[2] = m[0]
-            if m[0] * m[1] * m[2] <= (64 if quick else 100):
+            if m[0] * m[1] * m[2] <= (64 if quick else 80):
                 break
         (sn, sd) = rng.choice(shifts_all)
         cfgs.append(dict(level="grid", len=False, mesh=m, sn=list(sn), sd=sd, gamma=bool(rng.getrandbits(1)),
@@ -495,7 +497,7 @@ def api_events(ctx, world, apiw, events_start):
         # directed first: unequal half shift on possibly equivalent axes, and a generic shift
         combos = [((2, 2, 2), HALF_SHIFTS[4], True, False), ((2, 2, 1), HALF_SHIFTS[4], True, True),
                   ((2, 2, 2), GENERIC[0], False, True)] + combos
-        for (m, (sn, sd), gamma, tr) in combos[: (14 if quick else 50)]:
+        for (m, (sn, sd), gamma, tr) in combos[: (14 if quick else 40)]:
             base_cfg = dict(level="api", len=False, mesh=list(m), sn=list(sn), sd=sd, gamma=gamma, tr=tr,
                             grp=c, _crystal=c)
             if rng.random() < 0.15 and not is_generic(base_cfg):
